@@ -2,7 +2,7 @@
     signatures): binding of verified signatures to the attached claims over
     arbitrary operation histories. *)
 From Coq Require Import Arith ZArith String.
-From PSA Require Import Base Lines Lifecycle Regex Claims ClaimsSpec ClaimsProofs Cbor Tags Wire Codec Evidence SetterProofs CodecProofs.
+From PSA Require Import Base Lines Lifecycle Regex Claims ClaimsSpec ClaimsProofs Cbor Tags Wire Codec Evidence Gates SetterProofs CodecProofs FormatProofs.
 From PSA.Spec Require Import SpecTables SpecTags.
 Open Scope N_scope.
 
@@ -221,3 +221,86 @@ Proof.
 Qed.
 
 End WithKeys.
+
+(** * C03 / C08 composed *)
+Section Composed.
+Variable key_alg : N -> Z.
+Variable alg_known : Z -> bool.
+
+(** ValidateAndSign on a valid, wire-representable claims-set with a
+    working signer yields a token whose protected header carries the
+    signer's algorithm and whose payload is exactly the plain encoding;
+    decoding it gives back the claims and it verifies under the signer's key,
+    also on the signing Evidence itself *)
+Theorem sign_roundtrip (c : claims) (s : signer) (m0 : option msg) :
+  claims_wire_ok c -> validate S c = Ok tt -> sg_beh s = SignsOk ->
+  key_alg (sg_key s) = sg_alg s -> alg_known (sg_alg s) = true ->
+  exists p c',
+    encode_cbor W c = Some p /\
+    step S W key_alg alg_known {| e_claims := Some c; e_msg := m0 |} (ESign true s) =
+      ({| e_claims := Some c; e_msg := Some {| m_alg := Some (sg_alg s); m_payload := Some p;
+                                                m_sig := Some (SigBy (sg_key s) (sg_alg s) (Some (sg_alg s)) p) |} |},
+       OutTok (Tok (Some (sg_alg s)) (Some p) (Some (SigBy (sg_key s) (sg_alg s) (Some (sg_alg s)) p)))) /\
+    decode_cbor S W p = DOk c' /\ view c' = view c /\
+    (forall e', verify_ok S W key_alg alg_known
+                  (fst (step S W key_alg alg_known e' (EDecode (Tok (Some (sg_alg s)) (Some p) (Some (SigBy (sg_key s) (sg_alg s) (Some (sg_alg s)) p)))))) (sg_key s) = true) /\
+    verify_ok S W key_alg alg_known
+      (fst (step S W key_alg alg_known {| e_claims := Some c; e_msg := m0 |} (ESign true s))) (sg_key s) = true.
+Proof.
+  intros Ok V B Ka Kn.
+  assert (exists p, encode_cbor W c = Some p) as [p E].
+  { unfold encode_cbor, encode_tree. change (w_swc W) with spec_swc_fields.
+    destruct (enc_fields_gen (claim_value spec_swc_fields) (tags_of W (c_kind c)) c) as [kvs|] eqn:EF; [eexists; reflexivity|].
+    exfalso. (* the encoder cannot fail on a wire-representable, valid claims-set *)
+    revert EF. apply (valid_encodes c Ok V). }
+  destruct (encode_decode_roundtrip c p Ok E) as (c' & D & Vw).
+  exists p, c'. split; [exact E|].
+  assert (step S W key_alg alg_known {| e_claims := Some c; e_msg := m0 |} (ESign true s) =
+          ({| e_claims := Some c; e_msg := Some {| m_alg := Some (sg_alg s); m_payload := Some p;
+                                                    m_sig := Some (SigBy (sg_key s) (sg_alg s) (Some (sg_alg s)) p) |} |},
+           OutTok (Tok (Some (sg_alg s)) (Some p) (Some (SigBy (sg_key s) (sg_alg s) (Some (sg_alg s)) p))))) as St.
+  { cbn [step e_claims]. rewrite V. cbn [is_ok negb andb]. rewrite E. unfold do_sign. rewrite B. reflexivity. }
+  split; [exact St|]. split; [exact D|]. split; [exact Vw|]. split.
+  - intro e'. cbn [step]. rewrite D. cbn [fst]. unfold verify_ok. cbn. rewrite Kn, Ka, Z.eqb_refl, N.eqb_refl, bytes_eqb_refl. reflexivity.
+  - rewrite St. cbn [fst]. unfold verify_ok. cbn. rewrite Kn, Ka, Z.eqb_refl, N.eqb_refl, bytes_eqb_refl. reflexivity.
+Qed.
+
+(** the claims a decoded Evidence exposes are always the decoding of the payload *)
+Theorem decoded_claims_are_payload e a p sg c :
+  e_claims (fst (step S W key_alg alg_known e (EDecode (Tok a (Some p) (Some sg))))) = Some c ->
+  decode_cbor S W p = DOk c.
+Proof. cbn [step]. destruct (decode_cbor S W p) as [c'| |]; cbn; congruence. Qed.
+
+(** C08: the validating entry points fail, emit nothing and attach nothing
+    when validation fails, and otherwise equal their plain sibling *)
+Theorem gates_block (c : claims) (e : ev) (s : signer) :
+  validate S c <> Ok tt ->
+  validate_and_encode S W c = None /\
+  step S W key_alg alg_known e (ESetClaims c) = (e, OutErr) /\
+  snd (step S W key_alg alg_known {| e_claims := Some c; e_msg := e_msg e |} (ESign true s)) = OutErr.
+Proof.
+  intro V. unfold validate_and_encode. cbn [step e_claims].
+  destruct (validate S c) as [[]| |]; [congruence| |]; repeat split; reflexivity.
+Qed.
+
+Theorem gates_transparent (c : claims) (e : ev) (s : signer) :
+  validate S c = Ok tt ->
+  validate_and_encode S W c = encode_cbor W c /\
+  step S W key_alg alg_known e (ESetClaims c) = ({| e_claims := Some c; e_msg := e_msg e |}, OutOk) /\
+  step S W key_alg alg_known {| e_claims := Some c; e_msg := e_msg e |} (ESign true s) =
+  step S W key_alg alg_known {| e_claims := Some c; e_msg := e_msg e |} (ESign false s).
+Proof.
+  intro V. unfold validate_and_encode. cbn [step e_claims]. rewrite V. repeat split; reflexivity.
+Qed.
+
+Theorem decode_gate (b : bytes) :
+  (forall c, decode_and_validate S W b = DOk c -> decode_cbor S W b = DOk c /\ validate S c = Ok tt) /\
+  (forall c, decode_cbor S W b = DOk c -> validate S c = Ok tt -> decode_and_validate S W b = DOk c) /\
+  (forall c, decode_cbor S W b = DOk c -> validate S c <> Ok tt -> decode_and_validate S W b = DErr).
+Proof.
+  unfold decode_and_validate. destruct (decode_cbor S W b) as [c| |]; (split; [|split]); intros c1 H; try discriminate.
+  - destruct (validate S c) as [[]| |] eqn:V; try discriminate. injection H as <-. auto.
+  - intro V. injection H as <-. rewrite V. reflexivity.
+  - intro V. injection H as <-. destruct (validate S c) as [[]| |]; [congruence| |]; reflexivity.
+Qed.
+End Composed.
